@@ -262,6 +262,46 @@ func p1363Candidates(t *rapid.T, c elliptic.Curve, r, s *big.Int) []cand {
 	return out
 }
 
+// ecdsaOracles installs the independent strict verifier for the public point (qx, qy) = d*G and the
+// "other key" signer (shared by TestECDSA and the subtle From*Key routes).
+func ecdsaOracles(c *sigCase, co ecCombo, enc string, d, qx, qy *big.Int) {
+	size := sigref.ScalarSize(co.c)
+	memo := map[string]bool{}
+	c.ref = func(raw, effMsg []byte) bool {
+		r, s, err := sigref.ParseECDSA(co.c, enc, raw)
+		if err != nil {
+			return false
+		}
+		dg := sigref.Digest(co.hash, effMsg)
+		k := string(dg) + "|" + r.Text(16) + "|" + s.Text(16)
+		if v, ok := memo[k]; ok {
+			return v
+		}
+		v := sigref.ECDSAVerifyRS(co.c, qx, qy, dg, r, s)
+		memo[k] = v
+		return v
+	}
+	// another key: d' = d+1, or 1 when d = n-1
+	d2 := new(big.Int).Add(d, big.NewInt(1))
+	if d2.Cmp(co.c.Params().N) >= 0 {
+		d2.SetInt64(1)
+	}
+	c.otherKeySign = func(effMsg []byte) ([]byte, error) {
+		k := &stdecdsa.PrivateKey{D: d2}
+		k.Curve = co.c
+		k.X, k.Y = co.c.ScalarBaseMult(d2.FillBytes(make([]byte, size)))
+		der, err := stdecdsa.SignASN1(rand.Reader, k, sigref.Digest(co.hash, effMsg))
+		if err != nil || enc == sigref.DER {
+			return der, err
+		}
+		r, s, err := sigref.ParseDER(der)
+		if err != nil {
+			return nil, err
+		}
+		return sigref.EncodeP1363(r, s, size), nil
+	}
+}
+
 func TestECDSA(t *testing.T) {
 	rapid.Check(t, func(rt *rapid.T) {
 		detrand.Seed(rapid.Uint64().Draw(rt, "entropy"))
@@ -342,40 +382,7 @@ func TestECDSA(t *testing.T) {
 			}
 		}
 
-		memo := map[string]bool{}
-		c.ref = func(raw, effMsg []byte) bool {
-			r, s, err := sigref.ParseECDSA(co.c, enc, raw)
-			if err != nil {
-				return false
-			}
-			dg := sigref.Digest(co.hash, effMsg)
-			k := string(dg) + "|" + r.Text(16) + "|" + s.Text(16)
-			if v, ok := memo[k]; ok {
-				return v
-			}
-			v := sigref.ECDSAVerifyRS(co.c, qx, qy, dg, r, s)
-			memo[k] = v
-			return v
-		}
-		// another key: d' = d+1, or 1 when d = n-1
-		d2 := new(big.Int).Add(d, big.NewInt(1))
-		if d2.Cmp(co.c.Params().N) >= 0 {
-			d2.SetInt64(1)
-		}
-		c.otherKeySign = func(effMsg []byte) ([]byte, error) {
-			k := &stdecdsa.PrivateKey{D: d2}
-			k.Curve = co.c
-			k.X, k.Y = co.c.ScalarBaseMult(d2.FillBytes(make([]byte, size)))
-			der, err := stdecdsa.SignASN1(rand.Reader, k, sigref.Digest(co.hash, effMsg))
-			if err != nil || enc == sigref.DER {
-				return der, err
-			}
-			r, s, err := sigref.ParseDER(der)
-			if err != nil {
-				return nil, err
-			}
-			return sigref.EncodeP1363(r, s, size), nil
-		}
+		ecdsaOracles(c, co, enc, d, qx, qy)
 
 		sig, raw := c.signAndCheck(rt, msg, nil)
 		r, s, err := sigref.ParseECDSA(co.c, enc, raw)
